@@ -72,7 +72,12 @@ pub enum Op {
     Put { a: usize, key: Vec<u8>, c: Option<usize>, ts: u64 },
     /// a crafted entry, offered directly and inside a message at position `pos` among `n_valid`
     /// fresh valid entries, in a part with the given `have_local`, optionally with a second part
-    Attack { a: usize, key: Vec<u8>, c: Option<usize>, ts: u64, tamper: Tamper, pos: usize, n_valid: usize, have_local: bool, two_parts: bool },
+    Attack {
+        a: usize, key: Vec<u8>, c: Option<usize>, ts: u64, tamper: Tamper, pos: usize, n_valid: usize, have_local: bool, two_parts: bool,
+        /// the message also carries the honest entry the crafted one was made from (same author and key)
+        #[serde(default)]
+        twin: bool,
+    },
 }
 
 pub struct C03 {
@@ -193,7 +198,7 @@ impl Property for C03 {
         "a replica state of 0-6 valid entries, then 1-4 attacks: a validly signed entry or one of 16 tamperings (single field altered after signing, signatures swapped or taken from another entry, foreign document, wrong namespace/author key, non-curve-point author id, timestamps at the future bound -1/0/+1 and far beyond it (2^63, 2^64-1, now+2^63 and neighbours, now + one year), the two malformed emptiness combinations), offered directly and at every position of a crafted message among 0-3 valid entries, in parts with have_local true/false, one or two parts; non-trivial = an attack with a tampering other than None; distinct = distinct operation lists".into()
     }
     fn corpus(&self) -> Vec<(String, Vec<Op>)> {
-        let atk = |t: Tamper, pos: usize, n_valid: usize, have_local: bool| Op::Attack { a: 0, key: b"k".to_vec(), c: Some(0), ts: 5, tamper: t, pos, n_valid, have_local, two_parts: false };
+        let atk = |t: Tamper, pos: usize, n_valid: usize, have_local: bool| Op::Attack { a: 0, key: b"k".to_vec(), c: Some(0), ts: 5, tamper: t, pos, n_valid, have_local, two_parts: false, twin: false };
         let mut v = vec![
             // F3: malformed marker accepted only on the reconciliation path
             ("f3-empty-hash-with-len-in-message".into(), vec![atk(Tamper::EmptyHashWithLen, 0, 1, true)]),
@@ -229,6 +234,7 @@ impl Property for C03 {
                     n_valid,
                     have_local: rng.chance(1, 2),
                     two_parts: rng.chance(1, 3),
+                    twin: rng.chance(1, 3),
                 });
                 continue;
             }
@@ -242,6 +248,7 @@ impl Property for C03 {
                 n_valid,
                 have_local: rng.chance(1, 2),
                 two_parts: rng.chance(1, 3),
+                twin: rng.chance(1, 3),
             });
         }
         ops
@@ -286,7 +293,7 @@ impl Property for C03 {
                     }
                     let _ = rt.block_on(actor.insert_remote(nsid, e.clone(), PEER, ContentStatus::Missing));
                 }
-                Op::Attack { a, key, c, ts, tamper, pos, n_valid, have_local, two_parts } => {
+                Op::Attack { a, key, c, ts, tamper, pos, n_valid, have_local, two_parts, twin } => {
                     let cr = self.craft(*a, key, *c, *ts, *tamper);
                     crafted_all.push((cr.entry.clone(), cr.ns_ok, cr.au_ok));
                     let x = cr.entry.clone();
@@ -326,6 +333,12 @@ impl Property for C03 {
                         fresh += 1;
                         let k = format!("fresh-{fresh}");
                         valid.push(make_entry(ns, &self.keys.authors[(fresh as usize) % 3], k.as_bytes(), Some(fresh as usize % 3), 7));
+                    }
+                    if *twin {
+                        // the honest entry under the same author and key travels in the same message (before or
+                        // after the crafted one, as `pos` falls)
+                        let at = (fresh as usize) % (valid.len() + 1);
+                        valid.insert(at, make_entry(ns, &self.keys.authors[*a], key, *c, *ts));
                     }
                     let mut with_x: Vec<(SignedEntry, ContentStatus)> = valid.iter().cloned().map(|e| (e, ContentStatus::Complete)).collect();
                     with_x.insert((*pos).min(with_x.len()), (x.clone(), ContentStatus::Incomplete));
@@ -419,6 +432,9 @@ impl Property for C03 {
     fn features(&self, ops: &[Op], lines: &[Line]) -> Vec<String> {
         let mut f = vec![];
         for o in ops {
+            if let Op::Attack { twin: true, .. } = o {
+                f.push("honest-twin-in-the-same-message".to_string());
+            }
             if let Op::Attack { tamper, have_local, two_parts, .. } = o {
                 f.push(format!("tamper:{tamper:?}"));
                 f.push(format!("have_local:{have_local}"));
